@@ -10,6 +10,7 @@ import PdModel.Proto
 * `html2stan s`  (markup-free html → `flatten(html2stan(s))`)  → `ok <s'>` | `SAXParseException`
 * `doublepath s` (text → docutils `encode` → `html2stan` → flatten) → `ok <s'>` | `SAXParseException`
 * `flatten <tree>`                                             → `ok <s'>` | `UnicodeEncodeError`
+* `tofile doctype <tree>` (`writer.flattenToFile`: bytes on disk)   → `ok <s'>` | `UnicodeEncodeError`
 * `holds <tree>`    → `valid=<b> nested=<b> safe=<b> render=<b> text=<decoded text|->`
 * `validid s xs xc`                                            → `true|false`
 * `deprtext name pkg ver (repl|-) xs xc`                       → `ok <text>` | `ValueError`
@@ -87,6 +88,12 @@ def handle (args : List String) : String :=
       | .ok s => okStr s
       | .error _ => "UnicodeEncodeError"
     | _ => "bad-op"
+  | "tofile" :: dt :: toks =>
+    match Proto.decodeStr dt, parseTree (toks.length + 1) toks with
+    | some d, some (t, []) => match flattenToFile d t with
+      | .ok s => okStr s
+      | .error _ => "UnicodeEncodeError"
+    | _, _ => "bad-op"
   | "holds" :: toks =>
     match parseTree (toks.length + 1) toks with
     | some (t, []) =>
